@@ -505,6 +505,23 @@ func run(c *core.Ctx) {
 			}
 		}
 	}
+	// elements that enclose other markup, comments inside them, rel attributes whose name is not
+	// certain, alternatives between raw-text and ordinary elements followed by static markup
+	for i, cell := range [][3]string{
+		{`<object><!---->{{.V}}</object>`, "", "Reject"}, {`<svg><!-- c -->{{.V}}</svg>`, "", "Reject"}, {`<xmp><!-- c -->{{.V}}</xmp>`, "", "Reject"},
+		{`<object><b></b>{{.V}}</object>`, "", "Reject"}, {`<object><b>{{.V}}</b></object>`, "", "Reject"}, {`<object><br>{{.V}}</object>`, "", "Reject"}, {`<svg><g><text>{{.V}}</text></g></svg>`, "", "Reject"},
+		{`<link r{{/**/}}el="stylesheet" rel="icon" href="{{.V}}">`, "href", "TrustedResourceURL"}, {`<link {{if .C}}r{{end}}el="stylesheet" rel="icon" href="{{.V}}">`, "href", "TrustedResourceURL"},
+		{`<link {{if .C}}title{{else}}rel{{end}}="icon" rel="stylesheet" href="{{.V}}">`, "href", "TrustedResourceURL"}, {`<link {{if .NC}}title{{else}}rel{{end}}="stylesheet" rel="icon" href="{{.V}}">`, "href", "TrustedResourceURL"},
+		{`<link /rel="stylesheet" rel="icon" href="{{.V}}">`, "href", "TrustedResourceURL"}, {`<link x/rel="stylesheet" rel="icon" href="{{.V}}">`, "href", "TrustedResourceURL"},
+		{`{{if .C}}<script{{else}}<div{{end}}>static</div><p>{{.V}}</p>`, "", "Script"}, {`{{if .C}}<script{{else}}<div{{end}}><br>{{.V}}`, "", "Script"}, {`{{if .C}}<script>{{else}}<title>{{end}}//</title> {{.V}}</script>`, "", "Script"},
+		{`<s{{/**/}}cript><b>{{.V}}</b></script>`, "", "Script"}, {`<s{{/**/}}cript><!---->{{.V}}</script>`, "", "Script"}, {`<s{{/**/}}tyle><i title="{{.V}}">x</i></style>`, "", "StyleSheet"},
+		{`<script </script>{{.V}}</script>`, "", "Script"}, {`<style </style>{{.V}}</style>`, "", "StyleSheet"},
+		{`<p.x>{{.V}}</p.x>`, "", "Reject"}, {`<a_b href="{{.V}}">`, "", "Reject"}, {`<p.=""title="{{.V}}">`, "", "Reject"},
+	} {
+		if c.Mine(i) {
+			checkCell(c, cell[0], cell[1], cell[2])
+		}
+	}
 	c.Sample(kase{Template: util.Q(attrCell("a", "href", `"`, "")), Class: "TrustedResourceURLOrURL", Attr: "href"})
 	c.Sample(kase{Template: util.Q(attrCell("script", "src", `'`, "")), Class: "TrustedResourceURL", Attr: "src"})
 	c.Sample(kase{Template: util.Q(attrCell("svg", "onload", `"`, "")), Class: "Reject", Attr: "onload"})
